@@ -446,7 +446,7 @@ def obligations(tier, rng):
                             continue
                         out.append(ob('C08', 'spell', 'dt/%s/P=%dns/%s[%d,%d]/%s %s' % (mode, period_ns, op, a, b, name, itext),
                                       op=op, a=a, b=b, itext=itext, unit=unit, period=list(period), consts=[list(c) for c in consts],
-                                      mode=mode, N=N))
+                                      mode=mode, N=N, wall=30))      # 0.05 s each on the unchanged tree; a change that blows a window up must not cost 120 s x 2000
     for op in OPS:
         for itext, unit, period in [('[0,1500ms]', None, (1, 's')), ('[500ms,2s]', None, (1, 's')), ('[0,1500]', 'ms', (1, 's')),
                                     ('[0,3]', 's', (2, 's')), ('[0.5,1]', None, (1, 's')), ('[0,750ms]', None, (500, 'ms')),
